@@ -279,4 +279,319 @@ theorem atom_sem (c : Corpus) {O : Oracle} (hO : AutoCaseAgrees O) (f : Field) (
       simp [isDirective, isOrOp, setCase, setCaseAtom, evalQ, semE_atom, keyOf, caseMatters]
     · cases hat
 
+/-! ### reading a flat operand list -/
+
+theorem itemsSem_congr (ev1 ev2 : Q → DocPred) : ∀ (l : List Q) (cur : DocPred) (d : Nat),
+    (∀ x ∈ l, isOrOp x = false → ev1 x d = ev2 x d) → (∀ x ∈ l, isOrOp x = false → ∀ d', ev1 x d' = ev2 x d') →
+    itemsSem ev1 l cur d = itemsSem ev2 l cur d
+  | [], cur, d, _, _ => rfl
+  | x :: r, cur, d, h, hall => by
+    unfold itemsSem
+    cases hx : isOrOp x with
+    | true =>
+      simp only [if_true]
+      rw [itemsSem_congr ev1 ev2 r _ d (fun y hy => h y (by simp [hy])) (fun y hy => hall y (by simp [hy]))]
+    | false =>
+      simp only [Bool.false_eq_true, if_false]
+      have : (fun d => cur d && ev1 x d) = (fun d => cur d && ev2 x d) := by
+        funext d'; rw [hall x (by simp) hx d']
+      rw [this]
+      exact itemsSem_congr ev1 ev2 r _ d (fun y hy => h y (by simp [hy])) (fun y hy => hall y (by simp [hy]))
+
+theorem itemsSem_map (ev : Q → DocPred) (G : Q → Q) (hG : ∀ x, isOrOp (G x) = isOrOp x) :
+    ∀ (l : List Q) (cur : DocPred), itemsSem ev (l.map G) cur = itemsSem (fun x => ev (G x)) l cur
+  | [], cur => rfl
+  | x :: r, cur => by
+    simp only [List.map_cons, itemsSem, hG]
+    split
+    · rw [itemsSem_map ev G hG r]
+    · exact itemsSem_map ev G hG r _
+
+theorem itemsSem_noOr (ev : Q → DocPred) : ∀ (l : List Q) (cur : DocPred) (d : Nat), (∀ x ∈ l, isOrOp x = false) →
+    itemsSem ev l cur d = (cur d && allEv ev l d)
+  | [], cur, d, _ => by simp [itemsSem, allEv]
+  | x :: r, cur, d, h => by
+    have hx := h x (by simp)
+    simp only [itemsSem, hx, Bool.false_eq_true, if_false, allEv]
+    rw [itemsSem_noOr ev r _ d (fun y hy => h y (by simp [hy]))]
+    simp [Bool.and_assoc]
+
+theorem itemsSem_append_or (ev : Q → DocPred) : ∀ (a b : List Q) (cur : DocPred) (d : Nat),
+    (∀ x ∈ a, isOrOp x = false) →
+    itemsSem ev (a ++ Q.orOp :: b) cur d = ((cur d && allEv ev a d) || itemsSem ev b (fun _ => true) d)
+  | [], b, cur, d, _ => by simp [itemsSem, isOrOp, allEv]
+  | x :: r, b, cur, d, h => by
+    have hx := h x (by simp)
+    simp only [List.cons_append, itemsSem, hx, Bool.false_eq_true, if_false, allEv]
+    rw [itemsSem_append_or ev r b _ d (fun y hy => h y (by simp [hy]))]
+    simp [Bool.and_assoc]
+
+theorem setCaseList_eq_map (k : B) : ∀ l : List Q, setCaseList k l = l.map (setCase k)
+  | [] => rfl
+  | x :: r => by simp [setCaseList, setCaseList_eq_map k r]
+
+theorem wrapScopes_eq_map : ∀ l : List Q, wrapScopes l = l.map (fun q => if isOrOp q then q else .caseScope q)
+  | [] => rfl
+  | x :: r => by simp [wrapScopes, wrapScopes_eq_map r]
+
+/-! ### the directives of a list -/
+
+/-- the `case:` state of the scan (`k`, `hasScope`) against the documented one (`caseOfQ … none`) -/
+def CaseRel (k : B) (h : Bool) (m : Option CaseMode) : Prop :=
+  (h = false ∧ m = none) ∨ (h = true ∧ m = some (modeOf k))
+
+def typeFold (types : List Nat) (t : Nat) : Nat :=
+  types.foldl (fun acc v => if typeNum v < acc then typeNum v else acc) t
+
+structure DirOK (xs : List Q) (caseOf : Option CaseMode → Option CaseMode) (types : List Nat) : Prop where
+  caseRel : ∀ k h m, validK k → CaseRel k h m → validK (lastCase xs k) ∧ CaseRel (lastCase xs k) (anyCase xs h) (caseOf m)
+  typeRel : ∀ t, minType xs t = typeFold types t
+
+theorem DirOK.append {a b : List Q} {f1 f2 : Option CaseMode → Option CaseMode} {t1 t2 : List Nat}
+    (ha : DirOK a f1 t1) (hb : DirOK b f2 t2) : DirOK (a ++ b) (fun m => f2 (f1 m)) (t1 ++ t2) := by
+  constructor
+  · intro k h m hk hr
+    rw [lastCase_append, anyCase_append]
+    obtain ⟨h1, h2⟩ := ha.caseRel k h m hk hr
+    exact hb.caseRel _ _ _ h1 h2
+  · intro t
+    rw [minType_append, ha.typeRel, hb.typeRel]
+    simp [typeFold, List.foldl_append]
+
+theorem DirOK.plain {x : Q} (h : isDirective x = false) : DirOK [x] (fun m => m) [] := by
+  constructor
+  · intro k hh m hk hr
+    rw [lastCase_nondir h, anyCase_nondir h]
+    exact ⟨hk, hr⟩
+  · intro t
+    rw [minType_nondir h]; rfl
+
+theorem modeOf_caseWord (fl : Nat) : modeOf (caseWord fl) = caseOfFlavor fl := by
+  rcases fl with _ | _ | fl <;> rfl
+
+theorem validK_caseWord (fl : Nat) : validK (caseWord fl) := by
+  rcases fl with _ | _ | fl
+  · exact Or.inl rfl
+  · exact Or.inr (Or.inl rfl)
+  · exact Or.inr (Or.inr rfl)
+
+theorem DirOK.caseD (fl : Nat) : DirOK [Q.caseQ (caseWord fl)] (fun _ => some (caseOfFlavor fl)) [] := by
+  constructor
+  · intro k h m _ _
+    refine ⟨validK_caseWord fl, Or.inr ⟨rfl, ?_⟩⟩
+    simp [lastCase, modeOf_caseWord]
+  · intro t; rfl
+
+theorem DirOK.typeD (v : Nat) : DirOK [Q.type (typeNum v) .nil] (fun m => m) [v] := by
+  constructor
+  · intro k h m hk hr
+    exact ⟨hk, hr⟩
+  · intro t; rfl
+
+theorem anyCase_true : ∀ xs : List Q, anyCase xs true = true
+  | [] => rfl
+  | x :: r => by cases x <;> simp [anyCase, anyCase_true r]
+
+theorem lastCase_of_noCase : ∀ (xs : List Q) (k : B), anyCase xs false = false → lastCase xs k = k
+  | [], k, _ => rfl
+  | x :: r, k, h => by
+    cases x
+    case caseQ f => simp [anyCase, anyCase_true] at h
+    all_goals (simp only [anyCase] at h; simp only [lastCase]; exact lastCase_of_noCase r k h)
+
+/-! ### one group: `finishList` + `parseOperators` against `groupLift`/`groupMode` -/
+
+/-- what an enclosing list does to an item: nothing (`none`, the top level) or `setCase k` -/
+def applyK (outer : Option B) (q : Q) : Q :=
+  match outer with
+  | none => q
+  | some k => setCase k q
+
+def keff (outer : Option B) : B := outer.getD bAuto
+
+def evO (c : Corpus) (outer : Option B) (q : Q) : DocPred := evalQ c (applyK outer q)
+
+theorem evO_none (c : Corpus) : evO c none = evalQ c := by funext q; rfl
+
+theorem isOrOp_wrap (y : Q) : isOrOp (if isOrOp y then y else Q.caseScope y) = isOrOp y := by
+  cases hy : isOrOp y with
+  | true => simp; exact hy
+  | false => simp [isOrOp]
+
+theorem evO_and (c : Corpus) (outer : Option B) (cs : List Q) (d : Nat) :
+    evO c outer (.and cs) d = allEv (evO c outer) cs d := by
+  cases outer with
+  | none => rw [evO_none]; simp only [evalQ, evalAnd_eq_allEv]
+  | some k => exact evalK_and c k cs d
+
+theorem evO_or (c : Corpus) (outer : Option B) (cs : List Q) (d : Nat) :
+    evO c outer (.or cs) d = anyEv (evO c outer) cs d := by
+  cases outer with
+  | none => rw [evO_none]; simp only [evalQ, evalOr_eq_anyEv]
+  | some k => exact evalK_or c k cs d
+
+theorem typeFold_le {types : List Nat} (hv : ∀ v ∈ types, v ≤ 3) (hl : types.length ≤ 1) :
+    (types = [] ∧ typeFold types 100 = 100) ∨ (∃ v, types = [v] ∧ typeFold types 100 = typeNum v ∧ typeNum v ≠ 100) := by
+  cases types with
+  | nil => exact Or.inl ⟨rfl, rfl⟩
+  | cons v r =>
+    cases r with
+    | nil =>
+      right
+      have hv3 := hv v (by simp)
+      refine ⟨v, rfl, ?_, ?_⟩ <;> (rcases v with _ | _ | _ | _ | v <;> first | decide | omega)
+    | cons w r' => simp at hl
+
+theorem contains3_iff {v : Nat} (hv : v ≤ 3) : ([v].contains 3 = true) ↔ typeNum v = 2 := by
+  rcases v with _ | _ | _ | _ | v <;> first | decide | omega
+
+/-- the heart of the composition: for the items `its` of a group `q`, whatever the enclosing list does (`outer`),
+    the tree `finishList` + `parseOperators` build selects `groupLift (semOr … (groupMode …))` -/
+theorem group_sem (c : Corpus) (O : Oracle) (q : Qy) (its qs : List Q) (r : Q)
+    (hdir : DirOK its (caseOfQ q) (typesOfQ q)) (hv : ∀ v ∈ typesOfQ q, v ≤ 3) (hl : (typesOfQ q).length ≤ 1)
+    (hsem : ∀ kE, validK kE → ∀ d, d < c.n →
+      itemsSem (fun x => evalQ c (setCase kE x)) (nonDir its) (fun _ => true) d = semOr O c (modeOf kE) q d)
+    (hfin : finishList its = .ok qs) (hpo : parseOperators qs = .ok r)
+    (outer : Option B) (hout : validK (keff outer)) :
+    ∀ d, d < c.n → evO c outer r d = groupLift c q (semOr O c (groupMode (modeOf (keff outer)) q) q) d := by
+  -- the scan
+  obtain ⟨hk', hrel⟩ := hdir.caseRel bAuto false none (Or.inr (Or.inr rfl)) (Or.inl ⟨rfl, rfl⟩)
+  have htype := hdir.typeRel 100
+  generalize hkq : lastCase its bAuto = k' at hk' hrel
+  generalize hhs : anyCase its false = hs at hrel
+  -- effective flavor for the operands of this group
+  let kE : B := if hs then k' else keff outer
+  have hkE : validK kE := by cases hs <;> simp [kE, hk', hout]
+  have hmode : groupMode (modeOf (keff outer)) q = modeOf kE := by
+    unfold groupMode
+    rcases hrel with ⟨h1, h2⟩ | ⟨h1, h2⟩
+    · rw [h2]; simp [kE, h1]
+    · rw [h2]; simp [kE, h1]
+  have hk'auto : hs = false → k' = bAuto := by
+    intro h
+    rw [← hkq]
+    exact lastCase_of_noCase its bAuto (by rw [hhs, h])
+  -- what an operand evaluates to once this group and the enclosing list have set its case
+  have helem : ∀ x : Q, ∀ d', evO c outer ((if hs then (fun y => if isOrOp y then y else Q.caseScope y) else (fun y => y))
+      (setCase k' x)) d' = evalQ c (setCase kE x) d' ∨ isOrOp x = true := by
+    intro x d'
+    cases hox : isOrOp x with
+    | true => exact Or.inr rfl
+    | false =>
+      left
+      cases hs with
+      | true =>
+        simp only [if_true, isOrOp_setCase, hox, Bool.false_eq_true, if_false, kE]
+        cases outer with
+        | none => simp [evO, applyK, evalQ]
+        | some k => simp [evO, applyK, setCase_caseScope, evalQ]
+      | false =>
+        have := hk'auto rfl
+        subst this
+        simp only [Bool.false_eq_true, if_false, kE]
+        cases outer with
+        | none => simp [evO, applyK, keff]
+        | some k =>
+          simp only [evO, applyK, keff, Option.getD_some]
+          rw [setCase_idem k bAuto (by simpa [keff] using hout)]
+  -- unfold finishList
+  unfold finishList at hfin
+  simp only [scan_eq, List.nil_append, hkq, hhs, htype] at hfin
+  have hsemE := hsem kE hkE
+  rw [hmode]
+  rcases typeFold_le hv hl with ⟨hnil, h100⟩ | ⟨v, hv1, hfold, hne⟩
+  · -- no type directive
+    simp only [h100, ne_eq, not_true_eq_false, if_false, C07.bind_ok, Outcome.ok.injEq] at hfin
+    intro d hd
+    have hlift : groupLift c q (semOr O c (modeOf kE) q) d = semOr O c (modeOf kE) q d := by
+      simp [groupLift, hnil]
+    rw [hlift, ← hsemE d hd]
+    rw [parseOperators_sem (evO c outer) (evO_and c outer) (evO_or c outer) qs r hpo d, ← hfin]
+    cases hs with
+    | true =>
+      simp only [if_true, wrapScopes_eq_map, setCaseList_eq_map, List.map_map]
+      rw [itemsSem_map (evO c outer) _ (by intro x; simp only [Function.comp]; rw [isOrOp_wrap, isOrOp_setCase])]
+      apply itemsSem_congr
+      · intro x _ hx
+        rcases helem x d with h | h
+        · simpa [Function.comp] using h
+        · rw [hx] at h; cases h
+      · intro x _ hx d'
+        rcases helem x d' with h | h
+        · simpa [Function.comp] using h
+        · rw [hx] at h; cases h
+    | false =>
+      simp only [Bool.false_eq_true, if_false, setCaseList_eq_map]
+      rw [itemsSem_map (evO c outer) _ (isOrOp_setCase k')]
+      apply itemsSem_congr
+      · intro x _ hx
+        rcases helem x d with h | h
+        · simpa using h
+        · rw [hx] at h; cases h
+      · intro x _ hx d'
+        rcases helem x d' with h | h
+        · simpa using h
+        · rw [hx] at h; cases h
+  · -- a type directive: everything becomes the child of one Type node
+    simp only [hfold, ne_eq, hne, not_false_eq_true, if_true] at hfin
+    obtain ⟨l1, hl1, hfin2⟩ := bind_eq_ok' hfin
+    obtain ⟨typed, htyped, hl1'⟩ := bind_eq_ok' hl1
+    cases hl1'
+    simp only [Outcome.ok.injEq] at hfin2
+    -- the inner tree, under whatever case setting reaches it
+    have hinner : ∀ d, d < c.n → evalQ c (if hs then typed else applyK outer typed) d = semOr O c (modeOf kE) q d := by
+      intro d hd
+      rw [← hsemE d hd]
+      cases hs with
+      | true =>
+        simp only [if_true]
+        rw [parseOperators_sem (evalQ c) (fun cs d => by simp only [evalQ, evalAnd_eq_allEv])
+          (fun cs d => by simp only [evalQ, evalOr_eq_anyEv]) _ typed htyped d, setCaseList_eq_map,
+          itemsSem_map (evalQ c) _ (isOrOp_setCase k')]
+        simp [kE]
+      | false =>
+        have := hk'auto rfl
+        subst this
+        simp only [Bool.false_eq_true, if_false]
+        have h1 := parseOperators_sem (evO c outer) (evO_and c outer) (evO_or c outer) _ typed htyped d
+        simp only [evO] at h1
+        rw [h1, setCaseList_eq_map, itemsSem_map _ _ (isOrOp_setCase bAuto)]
+        apply itemsSem_congr
+        · intro x _ hx
+          rcases helem x d with h | h
+          · simpa [evO] using h
+          · rw [hx] at h; cases h
+        · intro x _ hx d'
+          rcases helem x d' with h | h
+          · simpa [evO] using h
+          · rw [hx] at h; cases h
+    intro d hd
+    -- r = or [and [y]]
+    have hy : ∃ y, qs = [y] ∧ isOrOp y = false ∧
+        evO c outer y = (if typeNum v = 2 then repoLift c (evalQ c (if hs then typed else applyK outer typed))
+                          else evalQ c (if hs then typed else applyK outer typed)) := by
+      cases hs with
+      | true =>
+        refine ⟨.caseScope (.type (typeNum v) typed), ?_, rfl, ?_⟩
+        · rw [← hfin2]; simp [wrapScopes, isOrOp]
+        · cases outer with
+          | none => simp [evO, applyK, evalQ]
+          | some k => simp [evO, applyK, setCase_caseScope, evalQ]
+      | false =>
+        refine ⟨.type (typeNum v) typed, ?_, rfl, ?_⟩
+        · rw [← hfin2]; simp
+        · cases outer with
+          | none => simp [evO, applyK, evalQ]
+          | some k => simp [evO, applyK, setCase, evalQ]
+    obtain ⟨y, hqs, hyo, hyev⟩ := hy
+    rw [parseOperators_sem (evO c outer) (evO_and c outer) (evO_or c outer) qs r hpo d, hqs]
+    simp only [itemsSem, hyo, Bool.false_eq_true, if_false, Bool.true_and, hyev]
+    have hv3 := hv v (by rw [hv1]; simp)
+    simp only [groupLift, hv1]
+    by_cases h2 : typeNum v = 2
+    · rw [if_pos h2, if_pos ((contains3_iff hv3).mpr h2)]
+      exact repoLift_congr c _ _ hinner d
+    · rw [if_neg h2, if_neg (fun h => h2 ((contains3_iff hv3).mp h))]
+      exact hinner d hd
+
 end ZoektModel.C06
